@@ -179,6 +179,8 @@ def check(run: Run) -> None:
 
     # ---------------- R2
     kw_calls = [c for c in calls_in(fd) if isinstance(c.func, ast.Name) and c.func.id == "_find_keyword"]
+    if not kw_calls:
+        raise AnalysisError("_fill_in_default_arguments (with its private helpers) does not call _find_keyword itself: the keywords of the call are kept in an object that is handed on - how a keyword is matched to a slot and removed cannot be read from this shape")
     run.check(len(kw_calls) == 1, "C07.R2", fd, fd.node, "keywords consulted through _find_keyword once per missing slot", f"{len(kw_calls)} _find_keyword calls")
     for c in kw_calls:
         a0 = strip_sites(fa.term_of(c.args[0]))
@@ -713,7 +715,9 @@ def check_patch_back(run: Run, ctx, m, mod: str, rule: str) -> None:
                         if old in unphi_terms(tx) or tx == old:
                             about_orig = True
                 is_none_test = isinstance(a, ast.Compare) and len(a.ops) == 1 and isinstance(a.comparators[0], ast.Constant) and a.comparators[0].value is None and isinstance(a.left, ast.Name)
-                if not (about_orig and is_none_test):
+                # "there is an original" may also be said with hasattr(node, "_old_ast")
+                is_has_test = pol and isinstance(a, ast.Call) and isinstance(a.func, ast.Name) and a.func.id == "hasattr" and len(a.args) == 2 and isinstance(a.args[1], ast.Constant) and a.args[1].value == "_old_ast" and fv.cfg.has_node(a.args[0]) and strip_sites(fv.term_of(a.args[0])) == nodep
+                if not ((about_orig and is_none_test) or is_has_test):
                     extra.append(ast.unparse(a))
             run.check(not extra, rule, vc, n, f"the {n.targets[0].attr} of the processed call is copied back whenever there is an original", f"patch-back of .{n.targets[0].attr} happens only when {' and '.join(extra)[:140]}: other rewrites of a call that is the whole body of a nested lambda (a callback renaming the method, keywords moved to positional slots) are lost in the emitted query", f"orig_ast.{n.targets[0].attr} = node.{n.targets[0].attr} unconditionally")
 
